@@ -42,6 +42,14 @@ func (pConn *PFCPConn) handleSessionEstablishmentRequest(msg message.Message) (m
 		return pfdres, errUnmarshal(err)
 	}
 
+	if sereq.NodeID == nil {
+		return errUnmarshalReply(errMandatoryIEMissing, ie.NewOffendingIE(ie.NodeID))
+	}
+
+	if sereq.CPFSEID == nil {
+		return errUnmarshalReply(errMandatoryIEMissing, ie.NewOffendingIE(ie.FSEID))
+	}
+
 	nodeID, err := sereq.NodeID.NodeID()
 	if err != nil {
 		return errUnmarshalReply(err, sereq.NodeID)
